@@ -41,3 +41,9 @@ class OracleQueryBuilder(QueryBuilder):
         if self._limit is None:
             return ""
         return " FETCH NEXT {limit} ROWS ONLY".format(limit=self._limit.get_sql(ctx))
+
+    def _apply_pagination(self, querystring: str, ctx: SqlContext) -> str:
+        # Oracle's row limiting clause is [OFFSET m ROWS] [FETCH NEXT n ROWS ONLY], in that order
+        querystring += self._offset_sql(ctx)
+        querystring += self._limit_sql(ctx)
+        return querystring
